@@ -286,3 +286,67 @@ func VfC16_Deep() {
 	vfAssert("C16.deep.agrees-with-llvm-identity", tu == hRef(t, u))
 	vfAssert("C16.deep.symmetric", tu == Equal(u, t))
 }
+
+// VfC16_AfterEdit: equality is a function of the current structure: a type
+// that was already compared (observed) and is then edited (renamed through
+// SetName, a field appended, an attribute changed) compares according to its
+// new structure, like a type built afterwards.
+//
+//vf:unwind 200
+func VfC16_AfterEdit() {
+	w := uint64(vfByte("w"))
+	vfAssume(vfAnd(w >= 1, w < 100))
+	inner := &StructType{Fields: []Type{&IntType{BitSize: w}}}
+	var subject Type
+	switch vfChoice("subject", 3) {
+	case 0:
+		subject = &PointerType{ElemType: inner}
+	case 1:
+		subject = &ArrayType{Len: 2, ElemType: &PointerType{ElemType: inner}}
+	default:
+		subject = &FuncType{RetType: &PointerType{ElemType: inner}}
+	}
+	// observe
+	_ = Equal(subject, subject)
+	_ = subject.String()
+	other0 := &PointerType{ElemType: &StructType{Fields: []Type{&IntType{BitSize: w}}}}
+	_ = Equal(subject, other0)
+	// edit the element in place
+	nm := hName("nm")
+	switch vfChoice("edit", 3) {
+	case 0:
+		inner.SetName(nm)
+	case 1:
+		inner.Fields = append(inner.Fields, &FloatType{Kind: FloatKindDouble})
+	default:
+		inner.Packed = true
+	}
+	vfReach("C16.after-edit")
+	// a structurally identical type built after the edit
+	var fresh Type
+	mkInner := func() *StructType {
+		return &StructType{TypeName: inner.TypeName, Fields: append([]Type(nil), inner.Fields...), Packed: inner.Packed}
+	}
+	switch s := subject.(type) {
+	case *PointerType:
+		fresh = &PointerType{ElemType: mkInner()}
+	case *ArrayType:
+		fresh = &ArrayType{Len: s.Len, ElemType: &PointerType{ElemType: mkInner()}}
+	default:
+		fresh = &FuncType{RetType: &PointerType{ElemType: mkInner()}}
+	}
+	vfAssert("C16.after-edit.equals-fresh-copy", vfAnd(Equal(subject, fresh), Equal(fresh, subject)))
+	// and it no longer equals a type of the old structure
+	var old Type
+	oldInner := &StructType{Fields: []Type{&IntType{BitSize: w}}}
+	switch s := subject.(type) {
+	case *PointerType:
+		old = &PointerType{ElemType: oldInner}
+	case *ArrayType:
+		old = &ArrayType{Len: s.Len, ElemType: &PointerType{ElemType: oldInner}}
+	default:
+		old = &FuncType{RetType: &PointerType{ElemType: oldInner}}
+	}
+	vfAssert("C16.after-edit.differs-from-old-structure", vfAnd(vfNot(Equal(subject, old)), vfNot(Equal(old, subject))))
+	vfAssert("C16.after-edit.agrees-with-llvm-identity", vfAnd(Equal(subject, fresh) == hRef(subject, fresh), Equal(subject, old) == hRef(subject, old)))
+}
